@@ -28,6 +28,20 @@
 #include <sstream>
 using namespace shark;
 
+// reuse mode (argv[2] == "reuse"): every trainer object (and the model it writes into) is first trained on an unrelated earlier
+// data set of another size and dimension and then on the data of the case; the result must not depend on that history
+static bool g_reuse = false;
+static std::vector<RealVector> prevPoints(std::size_t n, std::size_t d) {
+	std::vector<RealVector> r; unsigned long st = 12345;
+	for (std::size_t i = 0; i != n; ++i) { RealVector x(d); for (std::size_t j = 0; j != d; ++j) { st = (st * 1103515245UL + 12345UL) % 2147483648UL; x(j) = double(st % 17) - 8.0; } r.push_back(x); }
+	return r;
+}
+// well-conditioned earlier data (more points than dimensions, every class populated)
+static UnlabeledData<RealVector> prevData(std::size_t d) { return createDataFromRange(prevPoints(3 * (d + 1) + 2, d + 1), 4); }
+static LabeledData<RealVector, unsigned int> prevLabeled(std::size_t d, unsigned K) {
+	std::vector<RealVector> x = prevPoints(K * (2 * (d + 1) + 3), d + 1); std::vector<unsigned int> y; for (std::size_t i = 0; i != x.size(); ++i) y.push_back((unsigned)(i % K));
+	return createLabeledDataFromRange(x, y, 4);
+}
 static double num(std::string const& t) {
 	std::size_t p = t.find('/');
 	if (p == std::string::npos) return std::stod(t);
@@ -82,22 +96,22 @@ static void run(Case const& c, std::ostream& o) {
 			o << "OK"; pv(o, "mean", vec(m)); pv(o, "var", vec(v)); pv(o, "cov", mat(cov));
 			pv(o, "mean2", vec(m2)); pv(o, "mean3", vec(m3)); pv(o, "var3", vec(v3)); pv(o, "cov3", mat(cov3));
 		} else if (k == "V") {
-			NormalizeComponentsUnitVariance<> t(c.args[0] == "1"); Normalizer<> mod; t.train(mod, data);
+			NormalizeComponentsUnitVariance<> t(c.args[0] == "1"); Normalizer<> mod; if (g_reuse) t.train(mod, prevData(d)); t.train(mod, data);
 			o << "OK"; pv(o, "diag", vec(mod.diagonal())); pv(o, "off", vec(mod.offset())); pv(o, "out", outputs(mod, data));
 		} else if (k == "I") {
-			NormalizeComponentsUnitInterval<> t; Normalizer<> mod; t.train(mod, data);
+			NormalizeComponentsUnitInterval<> t; Normalizer<> mod; if (g_reuse) t.train(mod, prevData(d)); t.train(mod, data);
 			o << "OK"; pv(o, "diag", vec(mod.diagonal())); pv(o, "off", vec(mod.offset())); pv(o, "out", outputs(mod, data));
 		} else if (k == "W") {
-			NormalizeComponentsWhitening t(num(c.args[0])); LinearModel<> mod; t.train(mod, data);
+			NormalizeComponentsWhitening t(num(c.args[0])); LinearModel<> mod; if (g_reuse) t.train(mod, prevData(d)); t.train(mod, data);
 			o << "OK rows=" << mod.matrix().size1(); pv(o, "mat", mat(mod.matrix())); pv(o, "off", vec(mod.offset())); pv(o, "out", outputs(mod, data));
 		} else if (k == "Z") {
-			NormalizeComponentsZCA t(num(c.args[0])); LinearModel<> mod; t.train(mod, data);
+			NormalizeComponentsZCA t(num(c.args[0])); LinearModel<> mod; if (g_reuse) t.train(mod, prevData(d)); t.train(mod, data);
 			o << "OK rows=" << mod.matrix().size1(); pv(o, "mat", mat(mod.matrix())); pv(o, "off", vec(mod.offset())); pv(o, "out", outputs(mod, data));
 		} else {
 			bool wh = c.args[0] == "1"; std::size_t m = std::stoul(c.args[1]);
-			PCA pca(data, wh); LinearModel<> enc, dec; pca.encoder(enc, m); pca.decoder(dec, m);
+			PCA pca(g_reuse ? prevData(d) : data, wh); if (g_reuse) pca.setData(data); LinearModel<> enc, dec; pca.encoder(enc, m); pca.decoder(dec, m);
 			// the train() entry point: the number of components is taken from the model's output shape
-			LinearModel<> tr(d, m ? m : std::min(n, d)); PCA pca2(wh); pca2.train(tr, data);
+			LinearModel<> tr(d, m ? m : std::min(n, d)); PCA pca2(wh); if (g_reuse) { LinearModel<> tmp(d + 1, 2); pca2.train(tmp, prevData(d)); } pca2.train(tr, data);
 			o << "OK erows=" << enc.matrix().size1() << " vcols=" << pca.eigenvectors().size2();
 			pv(o, "ev", vec(pca.eigenvalues())); pv(o, "evec", mat(pca.eigenvectors())); pv(o, "mean", vec(pca.mean()));
 			pv(o, "encA", mat(enc.matrix())); pv(o, "encb", vec(enc.offset())); pv(o, "decA", mat(dec.matrix())); pv(o, "decb", vec(dec.offset()));
@@ -109,7 +123,7 @@ static void run(Case const& c, std::ostream& o) {
 		std::size_t n = std::stoul(c.args[1]), d = std::stoul(c.args[2]), od = std::stoul(c.args[3]);
 		LabeledData<RealVector, RealVector> data = createLabeledDataFromRange(rows(c.X, n, d), rows(c.E1, n, od));
 		data.repartition(c.sizes);
-		LinearRegression t(num(c.args[0])); LinearModel<> mod; t.train(mod, data);
+		LinearRegression t(num(c.args[0])); LinearModel<> mod; if (g_reuse) { std::vector<RealVector> px = prevPoints(2 * d + 5, d + 1), py = prevPoints(2 * d + 5, od); LabeledData<RealVector, RealVector> pd = createLabeledDataFromRange(px, py, 3); t.train(mod, pd); } t.train(mod, data);
 		o << "OK"; pv(o, "mat", mat(mod.matrix())); pv(o, "off", vec(mod.offset()));
 		return;
 	}
@@ -119,11 +133,12 @@ static void run(Case const& c, std::ostream& o) {
 		LabeledData<RealVector, unsigned int> data = createLabeledDataFromRange(rows(c.X, n, d), labs);
 		data.repartition(c.sizes);
 		if (k == "F") {
-			FisherLDA t(c.args[0] == "1", std::stoul(c.args[1])); LinearModel<> mod; t.train(mod, data);
+			FisherLDA t(c.args[0] == "1", std::stoul(c.args[1])); LinearModel<> mod; if (g_reuse) t.train(mod, prevLabeled(d, 3)); t.train(mod, data);
 			o << "OK rows=" << mod.matrix().size1(); pv(o, "mat", mat(mod.matrix())); pv(o, "off", vec(mod.offset()));
 			return;
 		}
 		LDA t(num(c.args[0])); LinearClassifier<> mod;
+		if (g_reuse) t.train(mod, prevLabeled(d, 3));
 		if (k == "D") t.train(mod, data);
 		else {
 			std::vector<double> w = c.E2; Data<double> wd = createDataFromRange(w); wd.repartition(c.sizes);
@@ -137,6 +152,7 @@ static void run(Case const& c, std::ostream& o) {
 }
 
 int main(int argc, char** argv) {
+	if (argc > 2 && std::string(argv[1]) == "reuse") { g_reuse = true; argv[1] = argv[2]; }
 	std::ifstream in(argv[1]); std::string line;
 	while (std::getline(in, line)) {
 		std::ostringstream o;
